@@ -123,6 +123,20 @@ impl CallBound {
                 dummy.argument_set().iter().map(|a| isize::from(e.arg_to_lit(a)) as usize).collect()
             };
             for inst in shared.instances.borrow().iter() {
+                // The search starts from the grounded extension (computed without SAT) and every satisfiable call
+                // must bring a candidate that was not examined before: pairwise distinct models, none of them the
+                // grounded extension again. Hence at most |base|-1 satisfiable calls for the preferred search.
+                let n_sat = inst.calls.iter().filter(|c| matches!(c.result, CallResult::Sat(_))).count();
+                if kind == Kind::Pr && n_sat + 1 > base_size(&fams, enc).max(1) {
+                    return Err(Failure::new(
+                        format!("{}/more-satisfiable-calls-than-candidate-sets", sig),
+                        format!(
+                            "{} satisfiable SAT calls on one solver instance although only {} candidate sets exist besides the starting (grounded) one: a candidate was examined twice",
+                            n_sat,
+                            base_size(&fams, enc).saturating_sub(1)
+                        ),
+                    ));
+                }
                 let mut seen: std::collections::BTreeMap<Vec<bool>, usize> = Default::default();
                 for c in &inst.calls {
                     if let CallResult::Sat(vals) = &c.result {
@@ -299,7 +313,7 @@ impl Prop for CallBound {
         "C18"
     }
     fn rule(&self) -> String {
-        "Generated (framework <=9 quick / <=11 thorough, 70% connected shapes, problem among the 21, selectable encoder, argument, certificate flag) run through a counting and recording SAT factory whose cap is the property's bound: per connected component PR <= |base|+|PR|+1, ID <= 2|base|+|PR|+2, SST/STG <= (n+2)|base|+3, CO/ST <= 2, with base = the family the selected encoder characterises (complete; admissible for SE-PR with the admissibility encoder; conflict-free for STG), all counted by brute force; multi-component frameworks: the sum over components (or the bound of the framework as one piece, whichever is larger). The query is aborted at bound+1 calls, so a lost blocking clause shows as a violation instead of a hang. On connected frameworks the models returned on one solver instance, projected on the argument variables, must be pairwise distinct for PR and occur at most twice for ID. Dynamic preferred solver: every DS query of a generated history stays within |CO|+|PR|+1 calls for the current framework. Scripts of 3-12 queries on ONE solver object (generator of C06): every query has its own bound (its argument's component for SST/STG/CO queries without certificate, the sum over components otherwise), so work carried over from earlier queries shows. The answer of every run is also checked against the reference. Non-trivial: |base| >= 3 and >= 2 preferred extensions or maximal ranges; distinct = case.".into()
+        "Generated (framework <=9 quick / <=11 thorough, 70% connected shapes, problem among the 21, selectable encoder, argument, certificate flag) run through a counting and recording SAT factory whose cap is the property's bound: per connected component PR <= |base|+|PR|+1, ID <= 2|base|+|PR|+2, SST/STG <= (n+2)|base|+3, CO/ST <= 2, with base = the family the selected encoder characterises (complete; admissible for SE-PR with the admissibility encoder; conflict-free for STG), all counted by brute force; multi-component frameworks: the sum over components (or the bound of the framework as one piece, whichever is larger). The query is aborted at bound+1 calls, so a lost blocking clause shows as a violation instead of a hang. On connected frameworks the models returned on one solver instance, projected on the argument variables, must be pairwise distinct for PR and occur at most twice for ID, and a preferred search may make at most |base|-1 satisfiable calls (its starting candidate, the grounded extension, must not come back from the SAT solver). Dynamic preferred solver: every DS query of a generated history stays within |CO|+|PR|+1 calls for the current framework. Scripts of 3-12 queries on ONE solver object (generator of C06): every query has its own bound (its argument's component for SST/STG/CO queries without certificate, the sum over components otherwise), so work carried over from earlier queries shows. The answer of every run is also checked against the reference. Non-trivial: |base| >= 3 and >= 2 preferred extensions or maximal ranges; distinct = case.".into()
     }
     fn assumptions(&self) -> Vec<String> {
         vec![
